@@ -189,6 +189,7 @@ type Exec struct {
 	curFn    *ssa.Function
 	callStk  []*ssa.Function
 	globalCells map[*Value]string
+	globalMaps  map[*MapV]string // maps reachable from package-level variables (C18 monitor: insert/delete)
 	pathFuncs map[string]int
 	lastPanic *goPanic
 	notes     []string
@@ -338,6 +339,7 @@ func (e *Exec) resetPath(prefix []Decision) {
 	e.initDone = map[*ssa.Package]bool{}
 	e.callStk = e.callStk[:0]
 	e.globalCells = nil
+	e.globalMaps = nil
 	e.pathFuncs = map[string]int{}
 	e.lastPanic = nil
 	e.syncMaps = map[string]*MapV{}
